@@ -17,8 +17,9 @@ class PtEval:
     ``subst``: optional dict id(node)->callable(idx)->value overriding a node
     (used e.g. for received data in distributed programs)."""
 
-    def __init__(self, alg, sizes=None, dwname=None, subst=None):
+    def __init__(self, alg, sizes=None, dwname=None, subst=None, phname=None):
         self.alg = alg
+        self.phname = phname or {}
         self.sizes = sizes or {}
         self.dwname = dwname or _default_dwname
         self.subst = subst or {}
@@ -53,7 +54,7 @@ class PtEval:
                         return self.at(bound, idx)
                     finally:
                         self._param_stack = saved
-            return alg.read(node.name, idx)
+            return alg.read(self.phname.get(node.name, node.name), idx)
         if isinstance(node, A.SizeParam):
             if node.name in self.sizes:
                 return self.sizes[node.name]
